@@ -472,8 +472,16 @@ func exec(line string, st *hx.Stats) string {
 			return strings.Join(cs, "|")
 		}
 		out = append(out, "d25 "+many("default", 25, 3))
-		out = append(out, "w1 "+many("weight2", 1, 1), "w25 "+many("weight2", 25, 2))
-		out = append(out, "r1 "+many("recursive", 1, 1), "r25 "+many("recursive", 25, 2))
+		// the fast paths race two streams: repeat them where they are applicable
+		w1, w25 := many("weight2", 1, 1), many("weight2", 25, 2)
+		if offered["weight2"] {
+			w1, w25 = w1+"|"+many("weight2", 1, 3), w25+"|"+many("weight2", 25, 6)
+		}
+		r1, r25 := many("recursive", 1, 1), many("recursive", 25, 2)
+		if offered["recursive"] {
+			r1, r25 = r1+"|"+many("recursive", 1, 2), r25+"|"+many("recursive", 25, 4)
+		}
+		out = append(out, "w1 "+w1, "w25 "+w25, "r1 "+r1, "r25 "+r25)
 		var off []string
 		for k := range offered {
 			off = append(off, k)
